@@ -56,3 +56,6 @@ def run(ctx):
     ctx.guard(k21_match_overrides, ctx, "C04")
     from ..rules_ast import match_slot_rule
     ctx.guard(match_slot_rule, ctx, "C04.match-slot")
+    # every class must compile the pattern of its own structure(): what the accepted language rests on
+    from ..rules_ast import persistent_state_rule
+    ctx.guard(persistent_state_rule, ctx, "C04.own-pattern")
